@@ -190,9 +190,9 @@ theorem mem_exec_lockAdd (c : Cfg) (σ : St) (wb : Bool) (w rs rb : Nat) (disp :
 theorem mem_exec_add64 (c : Cfg) (σ : St) (src dst nx : Nat) :
     ∃ σ0 : St, σ0.reg = σ.reg ∧ σ0.mem = σ.mem ∧
       exec c σ (.aluRR true .add src dst) nx = .next (σ0.set dst (σ.get dst + σ.get src)) ∧
-      (σ0.set dst (σ.get dst + σ.get src)).rip = nx := by
+      (σ0.set dst (σ.get dst + σ.get src)).rip = nx ∧ σ0.log = σ.log ∧ σ0.misaligned = σ.misaligned := by
   refine ⟨{ σ with rip := nx, flags := some (X86.flagsAdd 64 (X86.trunc 64 (σ.get dst)) (X86.trunc 64 (σ.get src))) },
-    rfl, rfl, ?_, rfl⟩
+    rfl, rfl, ?_, rfl, rfl, rfl⟩
   have hv : BitVec.ofNat 64 ((X86.trunc 64 (σ.get dst) + X86.trunc 64 (σ.get src)) % 2 ^ 64 % 2 ^ 64) =
       σ.get dst + σ.get src := by
     apply BitVec.eq_of_toNat_eq
@@ -260,7 +260,7 @@ theorem mem_sim_load (i : Insn) (sz w : Nat) (hsz : sz / 8 = w) (hw : 0 < w)
     mem_addrOf σ _ x _ (by rw [hrel.regs _ hs, hx])
   have hrm := mem_read _ _ _ _ _ hrel.mem hw hrd
   refine ⟨1, _, mem_stepsN_single c σ _ (hstep.trans (mem_exec_load c σ sz w _ _ _ _ _ bs hsz hga hrm)), ?_, rfl,
-    Or.inl ⟨hpc, rfl⟩⟩
+    rfl, rfl, rfl, Or.inl ⟨hpc, rfl⟩⟩
   exact rel0_wr _ _ _ _ _ hd (rel0_congr _ _ _ _ hrel rfl rfl)
 
 /-- `stx{b,h,w,dw}` -/
@@ -285,7 +285,7 @@ theorem mem_sim_store (i : Insn) (sz w : Nat) (hsz : sz / 8 = w) (hw : 0 < w)
   have hbs : leBytes (σ.get (regOf i.src.toNat)).toNat w = leBytes x.toNat w := by rw [hrel.regs _ hs, hx]
   obtain ⟨hrel', htop⟩ := hafter { σ with rip := c.codeBase + b, mem := xm' } rfl rfl
   exact ⟨1, _, mem_stepsN_single c σ _ (hstep.trans (mem_exec_store c σ sz w _ _ _ _ _ _ xm' hsz hga hbs hwm)), hrel', htop,
-    Or.inl ⟨hpc, rfl⟩⟩
+    rfl, rfl, rfl, Or.inl ⟨hpc, rfl⟩⟩
 
 /-- `st{b,h,w,dw}`: `im` is the immediate the x86 instruction carries -/
 theorem mem_sim_storeI (i : Insn) (sz w : Nat) (im : BitVec 32) (hsz : sz / 8 = w) (hw : 0 < w)
@@ -308,7 +308,7 @@ theorem mem_sim_storeI (i : Insn) (sz w : Nat) (im : BitVec 32) (hsz : sz / 8 = 
   obtain ⟨xm', hwm, hafter⟩ := mem_rel0_write retAddr σ s _ _ m' hrel (by rw [mem_leBytes_length]; exact hw) hwb
   obtain ⟨hrel', htop⟩ := hafter { σ with rip := c.codeBase + b, mem := xm' } rfl rfl
   exact ⟨1, _, mem_stepsN_single c σ _ (hstep.trans (mem_exec_storeI c σ sz w _ _ im _ _ _ xm' hsz hga him hwm)), hrel', htop,
-    Or.inl ⟨hpc, rfl⟩⟩
+    rfl, rfl, rfl, Or.inl ⟨hpc, rfl⟩⟩
 
 /-- atomic add; `f x` is the addend of the eBPF side, equal to the source register modulo `2^(8w)` -/
 theorem mem_sim_lockAdd (i : Insn) (wb : Bool) (w : Nat) (f : BitVec 64 → BitVec 64) (hwb : (if wb then 8 else 4) = w) (hw : 0 < w)
@@ -338,7 +338,7 @@ theorem mem_sim_lockAdd (i : Insn) (wb : Bool) (w : Nat) (f : BitVec 64 → BitV
     rw [Nat.add_mod, ← hf x, ← Nat.add_mod]
   obtain ⟨hrel', htop⟩ := hafter { σ with rip := c.codeBase + b, mem := xm', flags := none } rfl rfl
   exact ⟨1, _, mem_stepsN_single c σ _ (hstep.trans (mem_exec_lockAdd c σ wb w _ _ _ _ _ bs _ xm' hwb hga hrm hbs hwm)),
-    hrel', htop, Or.inl ⟨hpc, rfl⟩⟩
+    hrel', htop, rfl, rfl, rfl, Or.inl ⟨hpc, rfl⟩⟩
 
 /-- `emit_load_packet` from base register r10 or r11: loads `[base + zero-extended imm]` into rax = eBPF r0 -/
 theorem mem_sim_loadPacket (c : Cfg) (tgt : Tgt → Option Nat) (a b : Nat) (σ : St) (s : State) (retAddr sz w rb : Nat)
@@ -348,7 +348,7 @@ theorem mem_sim_loadPacket (c : Cfg) (tgt : Tgt → Option Nat) (a b : Nat) (σ 
     (hread : s.mem.readBytes? (σ.get rb + zx32 imm).toNat w = some bs) :
     ∃ k σ', stepsN c k σ = some σ' ∧
       Rel0 retAddr σ' { s with reg := s.reg.setIfInBounds 0 (BitVec.ofNat 64 (leValue bs)) } ∧
-      σ'.mem = σ.mem ∧ σ'.rip = c.codeBase + b := by
+      σ'.mem = σ.mem ∧ σ'.rip = c.codeBase + b ∧ σ'.log = σ.log ∧ σ'.misaligned = σ.misaligned := by
   have hcond := BitVec.toInt_eq_toNat_cond imm
   have hlt := imm.isLt
   have hzx : (zx32 imm).toNat = imm.toNat := by
@@ -362,7 +362,7 @@ theorem mem_sim_loadPacket (c : Cfg) (tgt : Tgt → Option Nat) (a b : Nat) (σ 
     have hga : X86.addrOf σ rb imm.toInt = (σ.get rb + zx32 imm).toNat := by
       rw [hint, mem_addrOf_nat, BitVec.toNat_add, hzx]
     have hrm := mem_read _ _ _ _ _ hrel.mem hw hread
-    refine ⟨1, _, mem_stepsN_single c σ _ (hstep.trans (mem_exec_load c σ sz w _ _ _ _ _ bs hsz hga hrm)), ?_, rfl, rfl⟩
+    refine ⟨1, _, mem_stepsN_single c σ _ (hstep.trans (mem_exec_load c σ sz w _ _ _ _ _ bs hsz hga hrm)), ?_, rfl, rfl, rfl, rfl⟩
     have := rel0_wr retAddr _ s 0 (BitVec.ofNat 64 (leValue bs)) (by omega)
       (rel0_congr retAddr σ { σ with rip := c.codeBase + b } s hrel rfl rfl)
     rw [mem_regOf_zero] at this
@@ -389,12 +389,14 @@ theorem mem_sim_loadPacket (c : Cfg) (tgt : Tgt → Option Nat) (a b : Nat) (σ 
       rw [← hσ1, get_set_ne _ 1 rb _ (by omega)]; rfl
     -- add rcx, base
     obtain ⟨a2, hstep2, hcs2⟩ := mem_step_cons _ _ _ _ _ _ _ hcs1 hrip1
-    obtain ⟨σ0, hreg0, hmem0, hex2, hrip2⟩ := mem_exec_add64 c σ1 rb JitAst.RCX (c.codeBase + a2)
+    obtain ⟨σ0, hreg0, hmem0, hex2, hrip2, hlog0, hmis0⟩ := mem_exec_add64 c σ1 rb JitAst.RCX (c.codeBase + a2)
     generalize hσ2 : σ0.set JitAst.RCX (σ1.get JitAst.RCX + σ1.get rb) = σ2 at hex2 hrip2
     have hrel2 : Rel0 retAddr σ2 s := by
       rw [← hσ2]
       exact rel0_scratch _ _ _ _ _ (Or.inl rfl) (rel0_congr retAddr σ1 _ s hrel1 hreg0 hmem0)
     have hmem2 : σ2.mem = σ.mem := by rw [← hσ2, ← hmem1, ← hmem0]; rfl
+    have hlog2 : σ2.log = σ.log := by rw [← hσ2, set_log, hlog0, ← hσ1]; rfl
+    have hmis2 : σ2.misaligned = σ.misaligned := by rw [← hσ2, set_misaligned, hmis0, ← hσ1]; rfl
     have hrcx2 : σ2.get 1 = σ.get rb + zx32 imm := by
       rw [← hσ2]
       show (σ0.set 1 (σ1.get 1 + σ1.get rb)).get 1 = _
@@ -411,7 +413,7 @@ theorem mem_sim_loadPacket (c : Cfg) (tgt : Tgt → Option Nat) (a b : Nat) (σ 
       rw [hmem2]; exact mem_read _ _ _ _ _ hrel.mem hw hread
     have hex3 := mem_exec_load c σ2 sz w JitAst.RAX JitAst.RCX 0 (c.codeBase + b) _ bs hsz hga hrm
     refine ⟨3, _, mem_stepsN_cons c σ σ1 _ 2 (hstep1.trans hex1)
-      (mem_stepsN_cons c σ1 σ2 _ 1 (hstep2.trans hex2) (mem_stepsN_single c σ2 _ (hstep3.trans hex3))), ?_, hmem2, rfl⟩
+      (mem_stepsN_cons c σ1 σ2 _ 1 (hstep2.trans hex2) (mem_stepsN_single c σ2 _ (hstep3.trans hex3))), ?_, hmem2, rfl, hlog2, hmis2⟩
     have := rel0_wr retAddr _ s 0 (BitVec.ofNat 64 (leValue bs)) (by omega)
       (rel0_congr retAddr σ2 { σ2 with rip := c.codeBase + b } s hrel2 rfl rfl)
     rw [mem_regOf_zero] at this
@@ -439,9 +441,9 @@ theorem mem_sim_ldabs (i : Insn) (sz w : Nat) (hsz : sz / 8 = w) (hw : 0 < w)
       simp only [zx32, BitVec.toNat_add, BitVec.toNat_ofNat, BitVec.toNat_setWidth]
       omega
     rw [← haddr] at hrd
-    obtain ⟨k, σ', hsteps, hrel', hmem', hrip'⟩ :=
+    obtain ⟨k, σ', hsteps, hrel', hmem', hrip', hlog', hmis'⟩ :=
       mem_sim_loadPacket c tgt a b σ s retAddr sz w 10 i.imm bs hcs hrip hrel (Or.inl rfl) hsz hw hrd
-    refine ⟨k, σ', hsteps, hrel', ?_, Or.inl ⟨hpc, hrip'⟩⟩
+    refine ⟨k, σ', hsteps, hrel', ?_, hlog', hmis', rfl, Or.inl ⟨hpc, hrip'⟩⟩
     show readMem σ'.mem _ _ = readMem σ.mem _ _
     rw [hmem']
 
@@ -476,21 +478,23 @@ theorem mem_sim_ldind (i : Insn) (sz w : Nat) (hsz : sz / 8 = w) (hw : 0 < w)
     rw [← hσ1, get_set_ne _ JitAst.R11 _ _ (fun e => (regOf_ne_special _ hs).2.2.1 e.symm), ← hx, ← hrel.regs _ hs]; rfl
   -- add r11, src
   obtain ⟨a2, hstep2, hcs2⟩ := mem_step_cons _ _ _ _ _ _ _ hcs1 hrip1
-  obtain ⟨σ0, hreg0, hmem0, hex2, hrip2⟩ := mem_exec_add64 c σ1 (regOf i.src.toNat) JitAst.R11 (c.codeBase + a2)
+  obtain ⟨σ0, hreg0, hmem0, hex2, hrip2, hlog0, hmis0⟩ := mem_exec_add64 c σ1 (regOf i.src.toNat) JitAst.R11 (c.codeBase + a2)
   generalize hσ2 : σ0.set JitAst.R11 (σ1.get JitAst.R11 + σ1.get (regOf i.src.toNat)) = σ2 at hex2 hrip2
   have hrel2 : Rel0 retAddr σ2 s := by
     rw [← hσ2]
     exact rel0_scratch _ _ _ _ _ (Or.inr rfl) (rel0_congr retAddr σ1 _ s hrel1 hreg0 hmem0)
   have hmem2 : σ2.mem = σ.mem := by rw [← hσ2, ← hmem1, ← hmem0]; rfl
+  have hlog2 : σ2.log = σ.log := by rw [← hσ2, set_log, hlog0, ← hσ1]; rfl
+  have hmis2 : σ2.misaligned = σ.misaligned := by rw [← hσ2, set_misaligned, hmis0, ← hσ1]; rfl
   have hr11' : σ2.get 11 = BitVec.ofNat 64 s.mem.mem.base + x := by
     rw [← hσ2]
     show (σ0.set 11 (σ1.get 11 + σ1.get (regOf i.src.toNat))).get 11 = _
     rw [get_set_eq _ 11 _ (by omega), hr11, hsrc1]
   rw [← hr11'] at hrd
-  obtain ⟨k, σ', hsteps, hrel', hmem', hrip'⟩ :=
+  obtain ⟨k, σ', hsteps, hrel', hmem', hrip', hlog', hmis'⟩ :=
     mem_sim_loadPacket c tgt a2 b σ2 s retAddr sz w 11 i.imm bs hcs2 hrip2 hrel2 (Or.inr rfl) hsz hw hrd
   refine ⟨k + 1 + 1, σ', mem_stepsN_cons c σ σ1 _ (k + 1) (hstep1.trans hex1)
-    (mem_stepsN_cons c σ1 σ2 _ k (hstep2.trans hex2) hsteps), hrel', ?_, Or.inl ⟨hpc, hrip'⟩⟩
+    (mem_stepsN_cons c σ1 σ2 _ k (hstep2.trans hex2) hsteps), hrel', ?_, hlog'.trans hlog2, hmis'.trans hmis2, rfl, Or.inl ⟨hpc, hrip'⟩⟩
   show readMem σ'.mem _ _ = readMem σ.mem _ _
   rw [hmem', hmem2]
 
